@@ -246,7 +246,7 @@ impl CommitOracle {
 						}
 					}
 				},
-				M::S(SEvent::Broadcast { node, tx }) => {
+				M::S(SEvent::Broadcast { node, tx, .. }) => {
 					// only a cooperative close transaction may be broadcast in honest operation
 					let spends_funding = sim.chans.iter().position(|c| tx.input.iter().any(|i| i.previous_output.txid == c.funding_tx.compute_txid()));
 					if let Some(chan) = spends_funding {
@@ -398,11 +398,15 @@ pub fn dump_history(sim: &Sim) -> String {
 			M::S(SEvent::Dropped { from, to, wire }) => format!("n{}->n{} DROPPED {}", from, to, wire.kind()),
 			M::S(SEvent::ErrorAction { from, to, action, .. }) => format!("n{}->n{} ERRORACTION {}", from, to, action.chars().take(200).collect::<String>()),
 			M::S(SEvent::Ldk { node, ev }) => format!("n{} EVENT {}", node, format!("{:?}", ev).chars().take(160).collect::<String>()),
-			M::S(SEvent::Broadcast { node, tx }) => format!("n{} BROADCAST {} ({} in, {} out)", node, tx.compute_txid(), tx.input.len(), tx.output.len()),
+			M::S(SEvent::Broadcast { node, tx, verdict, .. }) => format!("n{} BROADCAST {} ({} in, {} out) verdict {:?}", node, tx.compute_txid(), tx.input.len(), tx.output.len(), verdict),
 			M::S(SEvent::Disconnect { a, b }) => format!("DISCONNECT n{} n{}", a, b),
 			M::S(SEvent::Reconnect { a, b }) => format!("RECONNECT n{} n{}", a, b),
 			M::S(SEvent::Api { node, what, ok, detail }) => format!("n{} API {} ok={} {}", node, what, ok, detail.chars().take(120).collect::<String>()),
 			M::S(SEvent::Tamper { from, to, .. }) => format!("TAMPER revoke n{}->n{}", from, to),
+			M::S(SEvent::Restart { node, snapshot_step, monitor_ids, ok, detail }) => format!("n{} RESTART from manager@{} monitors {:?} ok={} {}", node, snapshot_step, monitor_ids.iter().map(|(_, i)| *i).collect::<Vec<_>>(), ok, detail),
+			M::S(SEvent::Mined { height, txids }) => format!("MINED height {} txs {:?}", height, txids),
+			M::S(SEvent::Reorged { to_height }) => format!("REORG down to height {}", to_height),
+			M::S(SEvent::BlockDelivered { node, height }) => format!("n{} BLOCK delivered, now at {}", node, height),
 		};
 		out.push_str(&format!("{:>6} {}\n", at, line));
 	}
